@@ -879,6 +879,9 @@ func Run(seed int64, tier, out string) {
 		"participant lists, parameters, state/action machines, persistence snapshots) with dimensions 0..5, nil/empty slices, locked funds with and without index maps, " +
 		"partial signature sets, internal aliasing, machines after random operation sequences; distinct = (type, generator class, dimensions, outcome)"
 	per := 24
+	if tier == "thorough" {
+		per = 64
+	}
 	w := hx.NewCaseWriter(out, "Run.Compare_C19", per)
 	res.PerFile = per
 	r := &runner{g: g, res: res, w: w}
@@ -887,7 +890,7 @@ func Run(seed int64, tier, out string) {
 	r.curveKey = sharedKey(reflect.ValueOf(&curve).Elem())
 	rounds, nm, ml, na := 36, 10, 30, 6
 	if tier == "thorough" {
-		rounds, nm, ml, na = 700, 250, 200, 60
+		rounds, nm, ml, na = 700, 120, 80, 60
 	}
 	for i := 0; i < rounds; i++ {
 		r.simple(i)
